@@ -230,6 +230,18 @@ func (n namedField) GetValue(opts *options, elem value) (value, Error) {
 }
 
 func (i idxField) GetValue(opts *options, elem value) (value, Error) {
+	if d, ok := elem.(*cfgDynamic); ok {
+		// Evaluate the reference once, down to what it finally yields. Element
+		// 0 of a value which is no list is that value: handing back the
+		// unevaluated reference instead made the caller evaluate the whole
+		// chain a second time, on every level of a chain of such references.
+		v, ferr := d.final(opts)
+		if ferr != nil {
+			return nil, raiseNoObject(opts, elem, ferr)
+		}
+		elem = v
+	}
+
 	cfg, err := elem.toConfig(opts)
 	if err != nil {
 		if i.i == 0 {
